@@ -99,6 +99,10 @@ class Header(_Header):
 
         :param packet: raw packet bytes
         """
+        if not packet[0] & 0x80:
+            # RFC 4880 4.2: bit 7 of the packet tag octet is always one
+            raise ValueError('Expected: OpenPGP packet data. Got: an octet 0x{:02X} that is not a packet tag'.format(packet[0]))
+
         self._lenfmt = ((packet[0] & 0x40) >> 6)
         self.tag = packet[0]
         if self._lenfmt == 0:
